@@ -208,11 +208,21 @@ def run_family(run, exe, prop, configs, parallel=5, workers=3, env=None, cap_tou
             resx = run_harness_env(exe_bin if conf.get("Binary") else exe, ["random", str(nloc), str(seed() + 7), out["init"], REPLAYS], out["env"])
             run.add("evaluations", nloc); run.add("distinct_nontrivial", resx["stats"].get("nontrivial", 0))
             run.cov.setdefault("local_exploration_after_divergence", []).append({"config": name, "runs": nloc, "violations": len(resx["viols"])})
+            hit = False
             for v in resx["viols"]:
                 if v[0] in wanted_or:
-                    run.violation("%s|%s|explore %s" % (v[0], v[1], name), v[4], v[5])
+                    run.violation("%s|%s|explore %s" % (v[0], v[1], name), v[4], v[5]); hit = True
                 else:
                     run.note("oracle of another property fired while exploring %s after a divergence: %s %s: %s" % (name, v[0], v[1], v[5][:160]))
+            foreign = sorted({v[0] for v in resx["viols"]} - set(wanted_or) - {"O-crash", "O-harness"})
+            if foreign and not hit:
+                # only another property's oracle fired: switch it off and see what the fault does to this property
+                resy = run_harness_env(exe_bin if conf.get("Binary") else exe, ["random", str(nloc), str(seed() + 8), out["init"], REPLAYS], dict(out["env"], VERIF_IGNORE=",".join(foreign)))
+                run.add("evaluations", nloc)
+                run.cov["local_exploration_after_divergence"].append({"config": name, "runs": nloc, "violations": len(resy["viols"]), "ignoring": foreign})
+                for v in resy["viols"]:
+                    if v[0] in wanted_or:
+                        run.violation("%s|%s|explore %s" % (v[0], v[1], name), v[4], v[5])
         try:
             os.unlink(out["sched"])
         except OSError:
@@ -304,7 +314,7 @@ def fine_runs(run, exe, prop, tier, e):
     import muconfigs
     nruns = 1500 if tier == "quick" else 40000
     for i, conf in enumerate(muconfigs.FINE.get(prop, [])):
-        res = run_harness_env(exe, ["random", str(nruns), str(seed() + 100 + i), muconf.init_line(conf), REPLAYS], dict(e, VERIF_FINE="1"))
+        res = run_harness_env(exe, ["random", str(nruns), str(seed() + 100 + i), "fine=1 " + muconf.init_line(conf), REPLAYS], dict(e, VERIF_FINE="1"))
         run.add("evaluations", nruns); run.add("distinct_nontrivial", res["stats"].get("nontrivial", 0))
         run.cov.setdefault("random_fine_note", []).append({"program": i, "runs": nruns, "violations": len(res["viols"])})
         for v in res["viols"]:
@@ -320,13 +330,14 @@ def mu_check(prop, tier, replay, extra_rule="", extra_assume=(), env=None, post=
     if env:
         e.update(env)
     if replay:
-        res = run_harness_env(exe, ["replay", replay, REPLAYS], e)
+        rexe, renv = replay_target(replay, "h_mu")
+        res = run_harness_env(rexe, ["replay", replay, REPLAYS], dict(e, **renv))
         for v in res["viols"]:
             run.violation("%s|%s|replay" % (v[0], v[1]), replay, v[5])
         if not res["viols"] and res["stats"].get("matched"):
             # a TLC counterexample: confirmed when the code follows it to the end
             if os.path.basename(replay).split("_")[2:3] and "_TLC" not in replay and res["stats"].get("matched") == 1 and any(
-                    x in replay for x in ("Excl", "PickedReportsWake", "RetHonest", "NoDeadRecordTouch", "NoTouchAfterFree", "SleepBound", "NoStuck", "WordAgrees")):
+                    x in replay for x in ("Excl", "PickedReportsWake", "RetHonest", "NoDeadRecordTouch", "NoTouchAfterFree", "SleepBound", "NoStuck", "WordAgrees", "NoDeadRecord", "NoUseAfterFree")):
                 run.violation("TLC|replay", replay, "the real code follows the specification's counterexample in lock-step to the end")
         return run.finish()
     run.cov["rule"] = RULE + extra_rule
